@@ -338,7 +338,7 @@ pub struct Inner {
 }
 
 impl Inner {
-    fn count(&mut self, k: &str) {
+    pub fn count(&mut self, k: &str) {
         *self.counters.entry(k.to_string()).or_default() += 1;
     }
     pub fn live_threads(&self) -> usize {
